@@ -48,7 +48,63 @@ class FnError(Exception):
 # ---------------------------------------------------------------------------
 
 
+def gen_e2e(rng, tier):
+    """End-to-end form of the same property: remote_exec immediately followed by Group.terminate."""
+    from . import chanlib as L
+    backend = rng.choice(["thread", "main_thread_only", "gevent"])
+    transport = rng.choice(["popen", "popen", "bare", "proxy"])
+    specs, gwi = L.gateways_for(transport, backend)
+    n = rng.choice([1, 1, 2]) if backend != "main_thread_only" else 1
+    actors = [{"side": "i", "gw": gwi, "chan": None, "ops": []}]
+    main = actors[0]["ops"]
+    for k in range(n):
+        actors.append({"side": "w", "gw": gwi, "chan": f"c{k}", "ops": [["ident"], ["yield", rng.randrange(0, 3)]]})
+        main.append(["exec", f"c{k}", len(actors) - 1, gwi])
+    if rng.random() < 0.3:
+        main.append(["yield", rng.randrange(1, 4)])
+    main.append(["terminate", 30.0])
+    return {"mode": "e2e", "gateways": specs, "actors": actors,
+            "knobs": {"pipe_cap": rng.choice([4096, 65536]), "sock_cap": 65536, "chunk": rng.choice(["greedy", "random"])},
+            "strategy": L.gen_strategy(rng), "preempt": [],
+            "preempt_at": L.gen_preempt_at(rng, ["spawn", "_try_send_to_primary_thread", "trigger_shutdown",
+                                                 "integrate_as_primary_thread", "_local_schedulexec", "_terminate_execution"],
+                                           maxn=30, p=0.5),
+            "faults": [], "transport": transport, "backend": backend, "nbodies": n}
+
+
+def execute_e2e(case, chooser):
+    from vsim import gwsim
+    from . import chanlib as L
+    res = gwsim.run_case(case, chooser, max_steps=200_000, max_time=400.0)
+    gwsim.check_harness(res)
+    hist = L.Hist(res)
+    V = []
+    key = f"e2e;{case['backend']}"
+    term = [(s1, s2, r) for aid, oi, op, s1, s2, r in hist.ops(("terminate",))]
+    if term:
+        s1, s2, r = term[0]
+        if r is None:
+            V.append(v("terminate-blocked-after-remote-exec", key, "terminate(30) never returned"))
+        elif r[0] == "val" and r[3] - r[2] >= 5.0:
+            V.append(v("terminate-stalled-after-remote-exec", key,
+                       f"remote_exec immediately followed by terminate(30) took {r[3] - r[2]:.1f} simulated s "
+                       f"(an accepted task was not run: the worker waited for it, then interrupted itself)"))
+        elif r[0] == "exc":
+            V.append(v("terminate-raised", f"{key};{r[1]}", f"{r}"))
+    for aid in range(1, 1 + case["nbodies"]):
+        starts = [1 for (seq, a, oi, ph, d) in res.H if a == aid and oi == 0 and ph == "inv"]
+        if len(starts) > 1:
+            V.append(v("task-ran-twice", key, f"body {aid} started {len(starts)} times"))
+    for name, p in sorted(res.procs.items()):
+        if name != "init" and p["alive"]:
+            V.append(v("child-alive", key, f"{name} alive after terminate(30)"))
+    return gwsim.summarize(res, chooser, nontrivial=len(chooser.trace) > 0,
+                           feats={("e2e", case["transport"], case["backend"], case["nbodies"])}, sample=None, violations=V)
+
+
 def gen(rng, tier):
+    if rng.random() < 0.12:
+        return gen_e2e(rng, tier)
     backend = rng.choice(["thread", "main_thread_only"])
     hasprimary = rng.random() < 0.75
     gated = backend == "main_thread_only" and hasprimary
@@ -118,6 +174,12 @@ def gen(rng, tier):
 
 
 def shrink_cases(case):
+    if case.get("mode") == "e2e":
+        if case.get("preempt_at"):
+            c = dict(case)
+            c["preempt_at"] = []
+            yield c
+        return
     acts = case["actors"]
     # drop an actor
     if len(acts) > 1:
@@ -166,6 +228,8 @@ def shrink_cases(case):
 
 
 def execute(case, chooser):
+    if case.get("mode") == "e2e":
+        return execute_e2e(case, chooser)
     strategy = dict(case.get("strategy") or {"kind": "uniform"})
     w = World(chooser, strategy=strategy, max_steps=20000, max_time=600.0)
     s = w.sched
